@@ -185,6 +185,14 @@ class UserEntry(Entry):
     pass
 
 
+Entry_ = type("Entry", (Entry,), {"__doc__": "A user's class that is also called Entry (an unlisted type: the order names bibtexparser's)."})
+
+
+def same_named_blocks():
+    e = lambda k, i: Entry("article", k, [], start_line=i, raw=f"@article{{{k}}}#{i}")
+    return [Entry_("article", "a", [], start_line=0, raw="@article{a}#user-class"), e("c", 1), String("b", "v", start_line=2, raw="@string{b}#2"), e("b", 3)]
+
+
 def subclass_blocks():
     e = lambda k, i: Entry("article", k, [], start_line=i, raw=f"@article{{{k}}}#{i}")
     return [
@@ -218,6 +226,7 @@ def run_special(acc):
         # keys holding characters with a meaning in %-formats, templates and regular expressions
         lambda: [e("rate50%", 0), ctwin(), e("k%d", 1), e("a%b", 2), twin(), e("%s", 3), e("{0}", 4), e("a.b", 5), e("a+b", 6), e("a|b", 7), e("\\1", 8)],
         subclass_blocks,
+        same_named_blocks,
         lambda: subclass_blocks()[:5],
         lambda: subclass_blocks()[::-1],
     ]
@@ -271,6 +280,28 @@ def run_special(acc):
                         break
 
 
+def check_flag_readings(acc):
+    """`preserve_comments_on_top` is annotated bool; a non-bool (1, 0, "yes", None) must still mean ONE thing: the sorter
+    behaves on every library as the True configuration or as the False configuration does, throughout."""
+    libs = [("IC", "Eb", "Ea"), ("EC", "IC", "Eb", "Sa", "Ea"), ("Ea", "IC"), ("P", "IC", "Sa", "EC", "Ea2")]
+    for flag in (1, 0, "yes", "", None, 2.0):
+        outs = {}
+        for name, f in (("flag", flag), ("True", True), ("False", False)):
+            res = []
+            for names in libs:
+                for order in (ORDERS[0], ORDERS[3], ORDERS[-1]):
+                    types = tuple(TYPES[i] for i in order)
+                    try:
+                        res.append(tuple(tag(b) for b in SortBlocksByTypeAndKeyMiddleware(block_type_order=types, preserve_comments_on_top=f).transform(build(names)).blocks))
+                    except Exception as ex:
+                        res.append(("raised", type(ex).__name__))
+            outs[name] = res
+        acc.trace(len(libs) * 9)
+        acc.case(nontrivial_key=("flag-reading", repr(flag)))
+        if outs["flag"] not in (outs["True"], outs["False"]):
+            acc.violation({"oracle": "a_non_bool_flag_means_one_thing", "comments_on_top": repr(flag)}, {"case": {"flag_reading": repr(flag)}, "observed": outs["flag"][:6], "expected": "as preserve_comments_on_top=True throughout, or as False throughout"})
+
+
 def run_libs(libs, acc):
     for names in libs:
         lib = build(names)
@@ -287,6 +318,7 @@ def run_shard(shard, tier, acc):
         run_libs([()] + [(a,) for a in NAMES], acc)
         return
     if shard[0] == "special":
+        check_flag_readings(acc)
         return run_special(acc)
     if shard[0] == "mid":
         for n in (5,) if tier == "quick" else (5, 6, 7):
@@ -317,6 +349,8 @@ def run_shard(shard, tier, acc):
 
 
 def replay(case, acc):
+    if "flag_reading" in case:
+        return check_flag_readings(acc)
     if "special_library" in case:
         return run_special(acc)
     if "leak" in case:
